@@ -17,12 +17,20 @@ Print Assumptions C20_compare_antisym_trans.
 
 (* "a.b.c<suffix>" denotes exactly the numeric triple (every length of digit run) *)
 Theorem C20_parse_full_triple : forall d1 d2 d3 suffix,
-  all_digits d1 -> all_digits d2 -> all_digits d3 -> d1 <> [] -> d2 <> [] -> d3 <> [] -> stops suffix ->
+  all_digits d1 -> all_digits d2 -> all_digits d3 -> d1 <> [] -> d2 <> [] -> d3 <> [] -> tail_ok suffix = true ->
   digits_value d1 <= INT_MAX -> digits_value d2 <= INT_MAX -> digits_value d3 <= INT_MAX ->
   parse_loop 3 0 (d1 ++ dot :: d2 ++ dot :: d3 ++ suffix) sem0 =
   {| major := digits_value d1; minor := digits_value d2; patch := digits_value d3; valid := true |}.
 Proof. exact parse_full_triple. Qed.
 Print Assumptions C20_parse_full_triple.
+
+(* which strings are versions at all: exactly [v]MAJOR[.MINOR[.PATCH]] followed by nothing or by a '-'/'+' suffix of
+   letters, digits, '.', '-', '+'.  A commit hash ("37b3341"), "2.x", "1..2", a fourth component or trailing text is
+   not one, so (C20_no_action_on_unparsable, C20_notice_only_if_newer) nothing is ever done about it *)
+Theorem C20_a_string_is_a_version_exactly_when_it_has_the_shape : forall t,
+  valid (parse_loop 3 0 t sem0) = true <-> shape 3 t.
+Proof. exact parse_valid_iff_shape. Qed.
+Print Assumptions C20_a_string_is_a_version_exactly_when_it_has_the_shape.
 
 (* never crashes on a version string: every stored component fits an int; an oversized or
    digit-less string is unparsable rather than an exception or a wrapped number *)
@@ -68,6 +76,15 @@ Theorem C20_checksum_missing : forall ls asset,
 Proof. exact find_checksum_none. Qed.
 Print Assumptions C20_checksum_missing.
 
+(* an archive is installed only after it was verified against the digest listed for exactly its name: with no
+   checksums.txt, or no line for the asset, or a different digest, --update stops *)
+Theorem C20_install_only_after_verification_against_the_listed_digest : forall content asset actual,
+  checksum_verdict content asset actual = Verified ->
+  exists c h pre l post, content = Some c /\ lines c = pre ++ l :: post /\ line_entry l = Some (h, asset) /\
+    (forall l', In l' pre -> forall h', line_entry l' <> Some (h', asset)) /\ map lower h = actual.
+Proof. exact verified_only_against_the_listed_line. Qed.
+Print Assumptions C20_install_only_after_verification_against_the_listed_digest.
+
 (* in every invocation history, from any cache file, notices are >= 72 h apart, are only
    about strictly newer releases, and never appear when checks are disabled *)
 Theorem C20_notices_72h_apart : forall disk is, spaced (fst (run_invocations disk is)).
@@ -85,18 +102,28 @@ Theorem C20_disabled_is_silent : forall disk i,
 Proof. exact skip_env_silent. Qed.
 Print Assumptions C20_disabled_is_silent.
 
+(* a cache file that cannot be written: no notice (its time could not be stored, so it would be repeated) *)
+Theorem C20_unwritable_cache_is_silent : forall disk i,
+  writable i = false -> check_for_updates disk i = ([], disk).
+Proof. exact unwritable_silent. Qed.
+Print Assumptions C20_unwritable_cache_is_silent.
+
 (* non-vacuity: concrete strings and a concrete history exercise the premises *)
 Definition s (x : string) : list ascii := list_ascii_of_string x.
 Example ex_install : update_action (s "v1.2.3") (s "1.10.0") = Install. Proof. reflexivity. Qed.
 Example ex_prompt : update_action (s "1.9.9-rc1") (s "v2.0.0") = PromptMajor. Proof. reflexivity. Qed.
 Example ex_latest : update_action (s "1.2.3") (s "v1.2.3") = AlreadyLatest. Proof. reflexivity. Qed.
 Example ex_refuse1 : update_action (s "1.2.3") (s "nightly") = Refuse. Proof. reflexivity. Qed.
+Example ex_refuse3 : update_action (s "37b3341") (s "v1.9.5") = Refuse /\ update_action (s "1.0.0") (s "2.x") = Refuse /\
+                     update_action (s "1.0.0") (s "1.2.3.4") = Refuse /\ update_action (s "1.0.0") (s "v9.9.9$(touch x)") = Refuse.
+Proof. vm_compute. repeat split. Qed.
+Example ex_suffix : update_action (s "v1.0.2-14-g37b3341") (s "v1.1.0+build.5 ") = Install. Proof. vm_compute. reflexivity. Qed.
 Example ex_refuse2 : update_action (s "1.2.3") (s "1.99999999999.0") = Refuse. Proof. vm_compute. reflexivity. Qed.
 Example ex_checksum :
   parse_checksum (s ("aaa  bloch-v1-Linux-X64.tar.gz.sig" ++ String (ascii_of_nat 10) "bbb *bloch-v1-Linux-X64.tar.gz"))
                  (s "bloch-v1-Linux-X64.tar.gz") = Some (s "bbb").
 Proof. vm_compute. reflexivity. Qed.
 Example ex_history :
-  let inv t := {| now := t; skip_env := false; curv := s "1.0.0"; fetch := Some (s "1.1.0") |} in
+  let inv t := {| now := t; skip_env := false; writable := true; curv := s "1.0.0"; fetch := Some (s "1.1.0") |} in
   fst (run_invocations None [inv 1700000000; inv 1700002000; inv (1700000000 + WINDOW); inv (1700000001 + WINDOW)]) = [1700000000; 1700000000 + WINDOW].
 Proof. vm_compute. reflexivity. Qed.
